@@ -151,6 +151,51 @@ theorem approve_ok_unlists (es : List (Event × Nat)) (dt : Nat) (hcur : (run es
   have hlt : ¬ ((run es).clock + dt + 1 < (run es).st.compare.time) := by omega
   simp [hlt, hcur]
 
+/-- A compare that finds the device equal to the current code takes the device off the list, after EVERY
+history (second way out of the list besides `approve_ok_unlists`; no cleanliness hypothesis: an UPTODATE
+compare overwrites whatever a damaged file or an error-compare left behind). -/
+theorem compare_uptodate_unlists (es : List (Event × Nat)) (dt : Nat) (hcur : (run es).cur ≠ 0)
+    (heq : (run es).dev = (run es).curCode) :
+    (run (es ++ [(.compare, dt)])).listed = false := by
+  have hinv : Inv (run es) := inv_run es {} inv_init
+  have ht := hinv.times.at_le
+  simp only [run, List.foldl_append, List.foldl_cons, List.foldl_nil]
+  change (step (run es) (.compare, dt)).listed = false
+  simp only [step, World.cur] at hcur ⊢
+  have hne : ((run es).dev != (run es).curCode) = false := by simp [heq]
+  have hne' : ((run es).dev != World.curCode { (run es) with clock := (run es).clock + dt + 1 }) = false := by
+    simpa [World.curCode, World.codeOf, World.cur] using hne
+  simp only [World.cur, hcur, if_false, hne', World.listed, listed, devicePolicy, setCompare,
+    Bool.not_false, if_true]
+  have hlt : (run es).st.approve.time < (run es).clock + dt + 1 := by omega
+  have h0 : (0 : Nat) < (run es).clock + dt + 1 := by omega
+  cases hr : (run es).st.approve.result <;> simp [hlt, h0, hcur]
+
+/-- A compare that finds a difference puts the device on the list, after EVERY history (corollary of
+`missing_sound`: the observation `differs` is conclusive). -/
+theorem compare_diff_lists (es : List (Event × Nat)) (dt : Nat) (hcur : (run es).cur ≠ 0)
+    (hne : (run es).dev ≠ (run es).curCode) :
+    (run (es ++ [(.compare, dt)])).listed = true := by
+  apply missing_sound
+  simp only [run, List.foldl_append, List.foldl_cons, List.foldl_nil]
+  change (step (run es) (.compare, dt)).needsApprove = true
+  have hb : ((run es).dev != (run es).curCode) = true := by simpa using hne
+  have hb' : ((run es).dev != World.curCode { (run es) with clock := (run es).clock + dt + 1 }) = true := by
+    simpa [World.curCode, World.codeOf, World.cur] using hb
+  simp only [step, World.cur] at hcur ⊢
+  simp [hcur, hb', World.needsApprove]
+
+/-- Non-vacuity of both: after approve, drift and a new policy the two compares apply. -/
+example :
+    let es : List (Event × Nat) := [(.newPolicy [1,0,0,0,0,0], 0), (.approveOk, 0), (.damage, 1),
+      (.compareErr, 0)]
+    (run es).cur ≠ 0 ∧ (run es).dev = (run es).curCode ∧ (run es).listed = true ∧
+      (run (es ++ [(.compare, 2)])).listed = false := by decide
+example :
+    let es : List (Event × Nat) := [(.newPolicy [1,0,0,0,0,0], 0), (.approveOk, 0), (.drift [9,0,0,0,0,0], 1)]
+    (run es).cur ≠ 0 ∧ (run es).dev ≠ (run es).curCode ∧ (run es).listed = false ∧
+      (run (es ++ [(.compare, 2)])).listed = true := by decide
+
 /-- … and stays off the list while nothing but compares that find no difference, compressions and
 removals of OTHER policies happen (non-vacuity example of `missing_omits_partial` with all four
 hypotheses on a history with two policies, an approve, a compare and a compression). -/
@@ -164,6 +209,7 @@ def obligations : List Lean.Name := [
   ``missing_sound, ``missing_sound_removed_regression,
   ``missing_omits_partial, ``missing_omits_needs_clean,
   ``failed_approve_keeps_ok_record, ``failed_approve_after_revert_listed,
-  ``inv_step, ``j_step, ``approve_ok_unlists]
+  ``inv_step, ``j_step, ``approve_ok_unlists,
+  ``compare_uptodate_unlists, ``compare_diff_lists]
 
 end NA.C13
